@@ -51,6 +51,8 @@ def leaves_full():
         ('dt-aware+2', datetime.datetime(2024, 3, 10, 2, 0, 0, tzinfo=TZ_P2)),
         ('dt-aware-5', datetime.datetime(2024, 3, 9, 19, 0, 0, tzinfo=TZ_M5)),
         ('dt-later', datetime.datetime(2025, 1, 1, 12, 30)),
+        ('dt0+400us', datetime.datetime(2024, 3, 10, 0, 0, 0, 400)),
+        ('dt0+800us', datetime.datetime(2024, 3, 10, 0, 0, 0, 800)),
         ('fnA', host_fn_a),
         ('fnB', host_fn_b),
         ('reA', RE_A),
